@@ -23,6 +23,7 @@ REPO = os.environ.get("VERIF_REPO", "/repo")
 CACHE = os.environ.get("VERIF_CACHE", os.path.join(VERIF, ".cache"))
 HARNESS = os.path.join(VERIF, "harness")
 KEEP_PER_FLAVOUR = int(os.environ.get("VERIF_CACHE_KEEP", "2"))
+KEEP_MIN_AGE_S = int(os.environ.get("VERIF_CACHE_MIN_AGE_S", "10800"))
 
 COMMON = "-std=c++14 -g1 -DNDEBUG -ffp-contract=off -DSOPLEX_VERIF -w"
 FLAVOURS = {
@@ -158,8 +159,12 @@ def evict(flavour, keep_dir):
         return
     ds = [d for d in ds if os.path.isdir(d) and d != keep_dir]
     ds.sort(key=lambda d: os.path.getmtime(d), reverse=True)
+    # never remove a directory that was used recently: another check may be running from it (its mtime is refreshed
+    # every time a check resolves its binaries)
+    now = time.time()
     for d in ds[max(0, KEEP_PER_FLAVOUR - 1):]:
-        shutil.rmtree(d, ignore_errors=True)
+        if now - os.path.getmtime(d) > KEEP_MIN_AGE_S:
+            shutil.rmtree(d, ignore_errors=True)
 
 
 def build_lib(flavour, need_inst):
